@@ -8,6 +8,8 @@ simulator:
 * spawn failure (OSError) on the next spawn of a video,
 * read error (EIO) on the next pipe read,
 * kill: the running process dies now (poll() != None, stream cut mid-frame),
+* cut: the running process dies unnoticed - the stream ends mid-frame while poll() still says "running" until a
+  read has come back short,
 * truncated video: ffprobe promises n frames, the stream ends after m < n,
 * reap moment: poll() flips from None to 0 at a simulator-drawn call count,
   independently of how much buffered output has been read (a finished ffmpeg
@@ -72,6 +74,9 @@ class _Stream(object):
             p.fake.events.append(("pipe_read", spec.vid, len(out), n))
             if len(out) < n:
                 p.fake.fired["short_read_at_eof"] += 1
+                if getattr(p, "_cut", False) and p.returncode is None:
+                    p.returncode = -9       # only now does the death become visible to poll()
+                    p.fake.fired["pipe_ended_mid_frame_before_death_was_noticed"] += 1
         return out
 
     def readlines(self):
@@ -116,6 +121,16 @@ class FakeProc(object):
         s = self.stdout
         fs = self.spec.h * self.spec.w * 3
         s.data = s.data[: s.pos + fs // 2]
+
+    def cut_now(self, frac=0.5):
+        """Process dies unnoticed: the pipe ends in the middle of the next frame, but poll() keeps answering None
+        until a read has come back short (nobody has reaped the process yet)."""
+        s = self.stdout
+        fs = self.spec.h * self.spec.w * 3
+        if len(s.data) - s.pos > fs:
+            s.data = s.data[: s.pos + max(1, min(fs - 1, int(fs * frac)))]
+            self._cut = True
+            self._reap_after = 10 ** 9
 
     def communicate(self, *a, **k):
         return self.stdout.read(), self.stderr.read()
